@@ -16,6 +16,7 @@ def jObs15 (o : Obs15) : LJson :=
         Lean.Json.arr #[Lean.Json.str n, jRes jTree s, jRes jVal d]).toArray),
     ("sub_ser", jRes jFields o.subSer),
     ("sub_deser", jRes (jNamed jVal) o.subDeser),
+    ("narrow_deser", jRes (jNamed jVal) o.narrowDeser),
     ("again", Lean.Json.mkObj [
       ("deser", jRes (jNamed jVal) o.againDeser),
       ("rebuilt", jRes (jNamed jVal) o.againRebuilt),
@@ -38,6 +39,7 @@ def parseObs15 (j : LJson) : Except String Obs15 := do
     perValue := pv
     subSer := ← parseRes parseFields (← j.getObjVal? "sub_ser")
     subDeser := ← parseRes (parseNamed parseVal) (← j.getObjVal? "sub_deser")
+    narrowDeser := ← parseRes (parseNamed parseVal) (← j.getObjVal? "narrow_deser")
     againDeser := ← parseRes (parseNamed parseVal) (← ag.getObjVal? "deser")
     againRebuilt := ← parseRes (parseNamed parseVal) (← ag.getObjVal? "rebuilt")
     againShared := ← getBool ag "shared"
